@@ -9,6 +9,7 @@ import (
 
 	"github.com/gofiber/fiber/v3"
 	"github.com/gofiber/fiber/v3/middleware/idempotency"
+	"github.com/valyala/fasthttp"
 
 	"verifharness/internal/drive"
 	"verifharness/internal/sched"
@@ -169,6 +170,10 @@ type scenario struct {
 	Lifetime  time.Duration `json:"lifetime,omitempty"`
 	MemStore  bool          `json:"mem_store,omitempty"` // nil Storage: the default in-memory storage
 	AnyKey    bool          `json:"any_key,omitempty"`   // KeyHeaderValidate accepts every non-empty key
+	// ReuseCtx: every worker is one keep-alive connection: its requests are served one after the
+	// other on ONE fasthttp.RequestCtx, whose header buffers the next request overwrites (what
+	// fasthttp does per connection; fiber's default Immutable=false hands out strings into them).
+	ReuseCtx bool `json:"reuse_ctx,omitempty"`
 }
 
 func (sc *scenario) workers() [][]int {
@@ -208,6 +213,9 @@ func (sc *scenario) desc() string {
 	}
 	if sc.AnyKey {
 		sb.WriteString(" anykey")
+	}
+	if sc.ReuseCtx {
+		sb.WriteString(" reusectx")
 	}
 	if sc.Workers != nil {
 		fmt.Fprintf(&sb, " workers=%v", sc.Workers)
@@ -405,6 +413,7 @@ type run struct {
 	cur      map[int]int // worker index (-1 without scheduler) -> request it is sending
 	flags    []finding   // monitor findings raised while running (lock probe)
 	out      *sched.Outcome
+	ctxs     map[int]*fasthttp.RequestCtx
 	fired    bool // the planned fault hit a call
 	damaged  int  // Get calls that returned a damaged record
 }
@@ -472,7 +481,7 @@ func (r *run) boundary(kind, point string) {
 }
 
 func newRun(sc *scenario, plan faultPlan, s *sched.Sched) *run {
-	r := &run{sc: sc, plan: plan, s: s, keyExecs: map[string]int{}, cur: map[int]int{}}
+	r := &run{sc: sc, plan: plan, s: s, keyExecs: map[string]int{}, cur: map[int]int{}, ctxs: map[int]*fasthttp.RequestCtx{}}
 	for i, q := range sc.Reqs {
 		r.reqs = append(r.reqs, &reqRec{reqSpec: q, Idx: i})
 	}
@@ -607,7 +616,20 @@ func (r *run) send(wi, ri int) {
 	if rq.Skip {
 		hdr = append(hdr, drive.H{K: skipHeader, V: "1"})
 	}
-	resp := r.d.Do(&drive.Req{Method: rq.Method, URI: "/", Hdr: hdr})
+	var resp *drive.Resp
+	if r.sc.ReuseCtx {
+		fctx := r.ctxs[wi]
+		if fctx == nil {
+			fctx = &fasthttp.RequestCtx{}
+			r.ctxs[wi] = fctx
+		}
+		// what fasthttp's connection loop does between two requests of a connection
+		fctx.Response.Reset()
+		fctx.ResetUserValues()
+		resp = r.d.DoCtx(fctx, &drive.Req{Method: rq.Method, URI: "/", Hdr: hdr})
+	} else {
+		resp = r.d.Do(&drive.Req{Method: rq.Method, URI: "/", Hdr: hdr})
+	}
 	r.clock++
 	rq.Ret = r.clock
 	rq.Resp = resp
@@ -638,7 +660,8 @@ type probeLock struct {
 }
 
 func (p *probeLock) Lock(key string) error {
-	_, held := p.holder[key]
+	own := strings.Clone(key) // the probe's bookkeeping never shares memory with the request
+	_, held := p.holder[own]
 	t0 := p.r.clock
 	err := p.inner.Lock(key)
 	if err != nil {
@@ -646,12 +669,12 @@ func (p *probeLock) Lock(key string) error {
 	}
 	if !held && p.r.clock != t0 {
 		// nobody held this key when the call was made, yet other workers ran before it returned
-		p.r.flags = append(p.r.flags, finding{"lock|blocked-without-holder", "MemoryLock.Lock(" + key + ") blocked although no request held that key"})
+		p.r.flags = append(p.r.flags, finding{"lock|blocked-without-holder", "MemoryLock.Lock(" + own + ") blocked although no request held that key"})
 	}
-	if _, two := p.holder[key]; two {
-		p.r.flags = append(p.r.flags, finding{"mutual-exclusion|middleware-lock", "MemoryLock.Lock(" + key + ") returned while another request holds the key"})
+	if _, two := p.holder[own]; two {
+		p.r.flags = append(p.r.flags, finding{"mutual-exclusion|middleware-lock", "MemoryLock.Lock(" + own + ") returned while another request holds the key"})
 	}
-	p.holder[key] = p.r.curReq()
+	p.holder[own] = p.r.curReq()
 	return nil
 }
 
